@@ -12,13 +12,14 @@ Theorem c19_every_io_result_is_checked : forallb skeleton_ok driver_skeletons = 
 Proof. exact skeletons_ok. Qed.
 Print Assumptions c19_every_io_result_is_checked.
 
-(* the connection closes when the j-th uplink message arrives (any j after which the emulator still does I/O):
+(* the connection closes after the j-th uplink message arrived, k downlink messages still being readable (queued
+   ones, or the part of the answer that was sent) — any j, k after which the emulator still writes or reads past them:
    the process stops with exit status 1 at an event of the conversation — before its end, hence before the
    completion banner — in a number of steps bounded by the length of the conversation *)
 Theorem c19_close_is_fail_stop :
-  forall cfg j,
-    io_after_w (conversation_of driver_skeletons wiring_mode2 cfg) j = true ->
-    exists m, run (FClose j) (conversation_of driver_skeletons wiring_mode2 cfg) pst0 0 = Exit1 m
+  forall cfg j k,
+    io_after_w (conversation_of driver_skeletons wiring_mode2 cfg) j k = true ->
+    exists m, run (FClose j k) (conversation_of driver_skeletons wiring_mode2 cfg) pst0 0 = Exit1 m
               /\ m < List.length (conversation_of driver_skeletons wiring_mode2 cfg).
 Proof. exact test_mode_close_fail_stop. Qed.
 Print Assumptions c19_close_is_fail_stop.
@@ -34,8 +35,8 @@ Print Assumptions c19_garbage_is_fail_stop.
 
 (* generic form: any conversation assembled from checked skeletons *)
 Theorem c19_close_generic :
-  forall evs j, wr_checked evs = true -> io_after_w evs j = true ->
-  exists m, run (FClose j) evs pst0 0 = Exit1 m /\ m < List.length evs.
+  forall evs j k, wr_checked evs = true -> io_after_w evs j k = true ->
+  exists m, run (FClose j k) evs pst0 0 = Exit1 m /\ m < List.length evs.
 Proof. exact close_fail_stop. Qed.
 Print Assumptions c19_close_generic.
 
@@ -46,7 +47,7 @@ Definition cfg_one_ue : cfgmap :=
 Example c19_one_ue :
   let conv := conversation_of driver_skeletons wiring_mode2 cfg_one_ue in
   count_w conv = 15 /\
-  forallb (fun j => io_after_w conv j) (seq 0 14) = true /\ io_after_w conv 14 = false /\
+  forallb (fun j => io_after_w conv j 0) (seq 0 14) = true /\ io_after_w conv 14 0 = false /\ io_after_w conv 13 1 = true /\
   forallb (fun j => reply_consumed conv j 0) [0;1;2;3;6;8] = true /\
   run FNone conv pst0 0 = Completed.
 Proof. vm_compute. repeat split; reflexivity. Qed.
